@@ -58,5 +58,26 @@ func init() {
 			fail("readerwriter_stream.go ReadWriteCloser.Closed: not `return <recv>.ReadCloserClosed.Closed() &&/|| <recv>.WriteCloserClosed.Closed()`")
 		}
 		fmt.Fprintf(b, "/-- internal/streams/readerwriter_stream.go ReadWriteCloser.Closed(): the two halves' status is combined with `&&` (true) or `||` (false) -/\ndef c19PairClosedAnd : Bool := %v\n", and)
+		// the delegating wrappers (Named*, SimulatedConnection, StreamWrappedConnection) have no Close / Closed of their
+		// own: both come from the Safe* value they embed
+		var own []string
+		for _, f := range goFiles("internal/streams") {
+			af := parse(f)
+			if af == nil {
+				continue
+			}
+			for _, d := range af.Decls {
+				fd, ok := d.(*ast.FuncDecl)
+				if !ok || fd.Recv == nil || len(fd.Recv.List) != 1 || (fd.Name.Name != "Close" && fd.Name.Name != "Closed") {
+					continue
+				}
+				t := typeName(fd.Recv.List[0].Type)
+				switch t {
+				case "NamedConnection", "NamedStream", "NamedReader", "NamedWriter", "SimulatedConnection", "StreamWrappedConnection", "MuxStreamConnection":
+					own = append(own, t+"."+fd.Name.Name)
+				}
+			}
+		}
+		fmt.Fprintf(b, "\n/-- Close / Closed methods declared on the delegating wrapper types themselves (they are expected to come from the embedded Safe* value only) -/\ndef c19DelegOwnMethods : List String := %s\n", leanStrList14(own))
 	})
 }
